@@ -188,6 +188,8 @@ def apply(F, S, extra=None):
             S.ok("P3", "%s bb%d" % (f.label, h), driver="Iterator::next on Range/slice::Iter/Enumerate; the None edge leaves the loop")
         ex = r["exec"]
         for site in ex.sites:
+            if site["what"] not in ("assert", "slice-index"):
+                continue  # f64 division / sqrt never panic (C08/C09 look at them)
             if site["path"] != f.path:
                 # site inside an inlined helper: attribute to that helper's struct
                 g = F.fn_by_path.get(site["path"])
